@@ -26,7 +26,7 @@ class Sub:
     is given."""
 
     def __init__(self, name, check, strategy=None, enumerate=None, quick=0,
-                 thorough=0, shards=NPROC, min_share=None, note="", shrink=True):
+                 thorough=0, shards=NPROC, min_share=None, note="", shrink=True, tiers=("quick", "thorough")):
         self.name = name
         self.check = check
         self.strategy = strategy
@@ -37,6 +37,7 @@ class Sub:
         self.min_share = min_share or {}
         self.note = note
         self.shrink = shrink
+        self.tiers = tiers
 
     def budget(self, tier):
         n = self.thorough if tier == "thorough" else self.quick
@@ -201,7 +202,7 @@ def run_property(mod_name, tier, seed, only=None):
 
 def _run_property(mod, mod_name, prop, tier, seed, timer, only):
     known = load_known(prop)
-    subs = [s for s in mod.SUBCHECKS if only is None or s.name in only]
+    subs = [s for s in mod.SUBCHECKS if (only is None or s.name in only) and tier in s.tiers]
     tasks = []
     for sub in subs:
         n = sub.budget(tier)
